@@ -135,6 +135,10 @@ func (r *Run) fromReflect(rv reflect.Value) value {
 	return nativeV{rv}
 }
 
+// movedNative is the forwarding reference left in an interpreter cell whose struct migrated to
+// the native side (see toReflect).
+type movedNative struct{ ptr nativeV }
+
 // interpBox lets an interpreter value travel through native interface-typed slots.
 type interpBox struct{ v value }
 
@@ -188,6 +192,27 @@ func (r *Run) toReflect(v value, rt reflect.Type) reflect.Value {
 	case *value:
 		if x == nil {
 			return reflect.Zero(rt)
+		}
+		if mv, ok := (*x).(movedNative); ok {
+			return r.toReflect(mv.ptr, rt)
+		}
+		if st, ok := (*x).(structure); ok && rt.Kind() == reflect.Ptr && rt.Elem().Kind() == reflect.Struct {
+			// An object the interpreted code allocated (e.g. &ast.CommentGroup{...}) is linked into
+			// a native data structure: it MIGRATES to the native side. The interpreter cell keeps a
+			// forwarding reference, so later accesses through the old pointer reach the same object.
+			et := rt.Elem()
+			if et.NumField() != len(st) {
+				panic(unsupported(fmt.Sprintf("interpreter struct of %d fields into native %s", len(st), et)))
+			}
+			ptr := reflect.New(et)
+			for i := 0; i < et.NumField(); i++ {
+				if !ptr.Elem().Field(i).CanSet() {
+					panic(unsupported(fmt.Sprintf("interpreter struct into native %s with unexported field", et)))
+				}
+				ptr.Elem().Field(i).Set(r.toReflect(st[i], et.Field(i).Type))
+			}
+			*x = movedNative{nativeV{ptr}}
+			return ptr
 		}
 		panic(unsupported(fmt.Sprintf("interpreter pointer into native %s", rt)))
 	case []value:
